@@ -158,7 +158,8 @@ def parseCfg (c : Cfg) (ts : List String) : Cfg :=
     maxBytes := kvNat ts "maxbytes" c.maxBytes
     maxCycles := kvNat ts "maxcycles" c.maxCycles
     win := ⟨kvNat ts "close" c.win.close, kvNat ts "far" c.win.far⟩
-    mmrActive := kvBool ts "mmr" c.mmrActive }
+    mmrActive := kvBool ts "mmr" c.mmrActive
+    redeliveryGuard := kvBool ts "guard" c.redeliveryGuard }
 
 def step (s : DS) (ts : List String) : DS × String :=
   match ts with
